@@ -42,7 +42,16 @@ class C13(Harness):
         C = type('C', (B,), {})
         B2 = type('B2', (A,), {'y': param.String(default='b2')})
         D = type('D', (B, B2), {})       # diamond: only the later base (B2) redeclares y
-        return {'param': param, 'A': A, 'B': B, 'C': C, 'B2': B2, 'D': D, 'inst': []}
+        inside = []
+        world = {}
+
+        def class_watcher(*events):
+            # the namespace must already agree with attribute access while a watcher of the class-level assignment runs
+            if world:
+                inside.extend(self.invariant(world, ['<inside a class-level watcher>'], passive=True))
+        A.param.watch(class_watcher, ['x', 'y'])
+        world.update({'param': param, 'A': A, 'B': B, 'C': C, 'B2': B2, 'D': D, 'inst': [], 'inside': inside})
+        return world
 
     def enabled(self, w):
         ops = []
@@ -104,7 +113,7 @@ class C13(Harness):
                     out[n] = v
         return {n: v for n, v in out.items() if isinstance(v, Parameter)}
 
-    def invariant(self, w, history):
+    def invariant(self, w, history, passive=False):
         vs = []
         ctx = 'history %r' % (history,)
         for kn in CLASSES:
@@ -193,6 +202,9 @@ class C13(Harness):
                 if i == len(history) - 1:
                     vs.append(V('op-raises', 'history %r: %r raised %r' % (history, op, e), op=op[0], exc=type(e).__name__))
                 break
+        if not vs and w['inside']:
+            vs = [V(v['clause'], 'history %r, while the watcher of the last class-level assignment was running: %s' % (history, v['detail']),
+                    inside_watcher=True, **v['key']) for v in w['inside'][:3]]
         if not vs:
             vs = self.invariant(w, history)
         fp = None
